@@ -250,31 +250,46 @@ func C16Fl2() {
 func C05Fl2Units() {
 	NL := zz.Param("NL", 3)
 	f := zzMakeLines(NL, 1)
-	var a *EnvelopeDecl
+	var a, d *EnvelopeDecl
 	hf := zz.NondetBool("headerFooter")
 	col := func() []*ColumnDecl { return []*ColumnDecl{{Name: "c", StartPos: 1, Length: 1, LineIndex: zzIntPtr(1)}} }
 	if hf {
 		a = &EnvelopeDecl{Name: "A", Header: zzStrPtr("^H"), Footer: zzStrPtr("^F"), Min: zzIntPtr(0), Columns: col()}
+		if zz.NondetBool("secondHeaderFooter") {
+			// a second envelope with the same header and another footer: it sees the lines A's
+			// footer search has buffered
+			d = &EnvelopeDecl{Name: "D", Header: zzStrPtr("^H"), Footer: zzStrPtr("^G"), Min: zzIntPtr(0), Columns: col()}
+		}
 	} else {
 		R := 2 + zz.NondetChoice("R", 2)
 		a = &EnvelopeDecl{Name: "A", Rows: zzIntPtr(R), Min: zzIntPtr(0), Max: zzIntPtr(1), Columns: col()}
 	}
 	b := &EnvelopeDecl{Name: "B", Header: zzStrPtr("^B"), Min: zzIntPtr(0), Columns: []*ColumnDecl{{Name: "c", StartPos: 1, Length: 1}}}
 	c := &EnvelopeDecl{Name: "C", Min: zzIntPtr(0), Columns: []*ColumnDecl{{Name: "c", StartPos: 1, Length: 1}}}
-	tgt := zz.NondetChoice("target", 3)
-	a.IsTarget, b.IsTarget, c.IsTarget = tgt == 0, tgt == 1, tgt == 2
-	decl := &FileDecl{Envelopes: []*EnvelopeDecl{a, b, c}}
+	envs := []*EnvelopeDecl{a}
+	if d != nil {
+		envs = append(envs, d)
+	}
+	envs = append(envs, b, c)
+	tgt := zz.NondetChoice("target", len(envs))
+	for i, e := range envs {
+		e.IsTarget = i == tgt
+	}
+	decl := &FileDecl{Envelopes: envs}
 	zz.Assume((&validateCtx{}).validateFileDecl(decl) == nil)
 	r := NewReader("t", &zzChunkReader{data: f.input, failAt: -1}, decl, nil)
 
 	pos := 0
 	var want []string
 	starts := func(i int, ch byte) bool { return f.lines[i][0] == ch }
-	if hf {
+	// header/footer envelopes: from a line starting with H up to the next line starting with
+	// the footer letter; without such a line the envelope does not match (min 0) and the lines
+	// are handed on
+	hfEnvelopes := func(e *EnvelopeDecl, footer byte) {
 		for pos < len(f.lines) && starts(pos, 'H') {
 			end := -1
 			for k := pos; k < len(f.lines); k++ {
-				if starts(k, 'F') {
+				if starts(k, footer) {
 					end = k
 					break
 				}
@@ -282,10 +297,16 @@ func C05Fl2Units() {
 			if end < 0 {
 				break
 			}
-			if a.IsTarget {
+			if e.IsTarget {
 				want = append(want, string(f.lines[pos]))
 			}
 			pos = end + 1
+		}
+	}
+	if hf {
+		hfEnvelopes(a, 'F')
+		if d != nil {
+			hfEnvelopes(d, 'G')
 		}
 	} else {
 		R := *a.Rows
